@@ -28,7 +28,10 @@ SMALL = ["1", "2", "3", "7", "(-1)", "2u"]
 
 
 # further operand forms of integer constant expressions: floating constants as the immediate operand of a cast, sizeof(type), _Bool casts
-EXTRA_LEAVES = ["((int)2.7)", "((unsigned char)3.9)", "((long long)1e10)", "((int)0.5f)", "sizeof(int)", "sizeof(long long)", "((_Bool)7)", "((int)sizeof(char))"]
+# (_Bool is not among them: the front end has no _Bool type at all and says so with a diagnostic)
+# plus operands that are never evaluated (C99 6.6p11 example: `2 || 1 / 0` is a valid constant expression)
+EXTRA_LEAVES = ["((int)2.7)", "((unsigned char)3.9)", "((long long)1e10)", "((int)0.5f)", "sizeof(int)", "sizeof(long long)", "((int)sizeof(char))",
+                "(0 && (1 / 0))", "(2 || (1 / 0))", "(1 ? 2 : (1 / 0))", "(0 ? (1 % 0) : 3)", "(0 && (1 << 99))"]
 
 
 def exprs(tier, seed):
@@ -121,8 +124,11 @@ def compare(p, case, gres, pres):
         return
     if isinstance(pres, tuple):
         if pres[0] == "rejected":
+            # gcc accepts the unit without any diagnostic (-pedantic-errors): a constant expression ppci refuses is not "evaluated as C prescribes"
             p.count("ppci_diagnostic")
             p.collect("ppci_diagnostic_contexts", ctx + ":" + pres[1][:40])
+            p.violation("%s/%s/rejected" % (ctx, case["feat"]), "%s in context %s is a valid constant expression (gcc: %r) but ppci rejects it: %s" % (
+                case["expr"], case["fam"], g[1], pres[1][:100]), wit)
             return
         ex = pres[1]
         p.violation(exc_key("internal/" + ctx, ex), "%s = %s in context %s: ppci raises %s: %s (gcc accepts, value %r)" % (case["expr"], g[1], case["fam"], type(ex).__name__, str(ex)[:80], g[1]), wit)
